@@ -34,11 +34,23 @@ class Path:
         return " & ".join(f"{'' if d else 'not '}({t})" for t, d in self.decisions) or "<straight line>"
 
 
+def min_on_path(a, b, facts):
+    """min(a, b) as the arm with these comparison facts knows it: a if the arm established a <= b, b if b <= a, else None."""
+    d = Rat.lift(a) - Rat.lift(b)
+    for diff, rel in facts:
+        if nf.equal(diff, d):
+            return a if rel in ("<", "<=") else b
+        if nf.equal(diff, Rat.const(0) - d):
+            return b if rel in ("<", "<=") else a
+    return None
+
+
 class LoopHooks(Hooks):
     def __init__(self, decisions, ordering=None):
         self.ordering = ordering             # optional: scalar symbol name -> Fraction (one ordering of the times)
         self.decisions = dict(decisions)     # test text -> bool
         self.seen = []                       # [(text, decision)] in order of evaluation
+        self.facts = []                      # [(left - right, relation to 0)] of the comparisons decided by case split
         self.unknown = []
         self.calls = {"compute_error": [], "update_step_size": [], "warn": [], "linear_interp": []}
         self.no_grad_depth = 0
@@ -71,6 +83,23 @@ class LoopHooks(Hooks):
             self.unknown.append(text)
             d = True
         self.seen.append((text, d))
+        if isinstance(test, ast.Compare) and len(test.ops) == 1 and isinstance(test.ops[0], (ast.Lt, ast.LtE, ast.Gt, ast.GtE)):
+            # what the chosen arm knows: the sign of left - right (used by rules that compare a value met on this path with a
+            # reference written with min / max: `if a > b: a = b` is min(a, b) spelled with a branch)
+            try:
+                saved = interp.hooks
+                interp.hooks = _NoDecide(self)
+                try:
+                    l, r = interp.eval(test.left, env, fi), interp.eval(test.comparators[0], env, fi)
+                finally:
+                    interp.hooks = saved
+                if isinstance(l, (Rat, Fraction, int)) and isinstance(r, (Rat, Fraction, int)):
+                    op = type(test.ops[0])
+                    if not d:
+                        op = {ast.Lt: ast.GtE, ast.LtE: ast.Gt, ast.Gt: ast.LtE, ast.GtE: ast.Lt}[op]
+                    self.facts.append((Rat.lift(l) - Rat.lift(r), {ast.Lt: "<", ast.LtE: "<=", ast.Gt: ">", ast.GtE: ">="}[op]))
+            except AnalysisError:
+                pass
         return d
 
     def on_with(self, interp, ctx_text, entering, fi):
@@ -513,7 +542,9 @@ def run_body(model, adaptive, stmts, decisions, env_override=None, ordering=None
         errors.append(e)
     except _Return as r:
         env["@return"] = r.value
-    return Path(list(hooks.seen), steps, env, errors, hooks.calls), hooks
+    path = Path(list(hooks.seen), steps, env, errors, hooks.calls)
+    path.facts = list(hooks.facts)
+    return path, hooks
 
 
 def enumerate_paths(model, adaptive, stmts, **kw):
@@ -637,8 +668,9 @@ def trial_end(p):
                                    key=lambda v: repr(Rat.lift(v).key())))
     t_end = nf.sym("ts[-1]", True)
     ends = [tb for ta, tb, y, e, n in p.steps if nf.equal(ta, H("curr_t"))]
-    for cand in (ref_end, t_end):
-        if any(nf.equal(tb, cand) for tb in ends):
+    arm = min_on_path(H("curr_t") + H("step_size"), t_end, getattr(p, "facts", []))     # the clip spelled with a branch
+    for cand in (ref_end, arm, t_end):
+        if cand is not None and any(nf.equal(tb, cand) for tb in ends):
             return cand
     return None
 
